@@ -54,3 +54,77 @@ package errutil
 //@   requires cause != nil
 //@   ensures !typeis(payload, *errorspb.StringPayload) ==> result == nil
 //@   ensures typeis(payload, *errorspb.StringPayload) ==> typeis(result, *withNewMessage) && result.(*withNewMessage).cause == cause && result.(*withNewMessage).message == payload.(*errorspb.StringPayload).Msg
+
+// ---- constructors: nil discipline (C10), shape (C07/C10), captured frame (C16) ----
+
+//@ func New
+//@   props C10 C16
+//@   ensures result != nil
+//@   ensures[C16] $cap == lvl - 1
+//@ func NewWithDepth
+//@   props C10 C16 C12
+//@   ensures result != nil && typeis(result, *withstack.withStack)
+//@   ensures[C16] $cap == lvl - 1 - depth
+//@ func Newf
+//@   props C10 C16
+//@   ensures result != nil
+//@   ensures[C16] $cap == lvl - 1
+//@ func NewWithDepthf
+//@   props C10 C16
+//@   ensures result != nil
+//@   ensures[C16] $cap == lvl - 1 - depth
+//@   loop 2: invariant err != nil
+//@ func Wrap
+//@   props C10 C16
+//@   ensures err == nil ==> result == nil
+//@   ensures err != nil ==> result != nil
+//@   ensures[C16] err != nil ==> $cap == lvl - 1
+//@ func WrapWithDepth
+//@   props C10 C16
+//@   ensures err == nil ==> result == nil
+//@   ensures err != nil ==> result != nil
+//@   ensures[C16] err != nil ==> $cap == lvl - 1 - depth
+//@ func Wrapf
+//@   props C10 C16
+//@   ensures err == nil ==> result == nil
+//@   ensures err != nil ==> result != nil
+//@   ensures[C16] err != nil ==> $cap == lvl - 1
+//@ func WrapWithDepthf
+//@   props C10 C16
+//@   ensures err == nil ==> result == nil
+//@   ensures old(err) != nil ==> result != nil
+//@   ensures[C16] old(err) != nil ==> $cap == lvl - 1 - depth
+//@   loop 2: invariant err != nil
+//@ func JoinWithDepth
+//@   props C10 C13 C16
+//@   ensures countNonNil(errs, len(errs)) == 0 ==> result == nil
+//@   ensures countNonNil(errs, len(errs)) > 0 ==> result != nil
+//@   ensures[C16] countNonNil(errs, len(errs)) > 0 ==> $cap == lvl - 1 - depth
+//@ func AssertionFailedf
+//@   props C10 C16
+//@   ensures result != nil
+//@   ensures[C16] $cap == lvl - 1
+//@ func AssertionFailedWithDepthf
+//@   props C10 C16
+//@   ensures result != nil
+//@   ensures[C16] $cap == lvl - 1 - depth
+//@ func HandleAsAssertionFailure
+//@   props C10 C07 C16
+//@   ensures origErr == nil ==> result == nil
+//@   ensures origErr != nil ==> result != nil
+//@   ensures[C16] origErr != nil ==> $cap == lvl - 1
+//@ func HandleAsAssertionFailureDepth
+//@   props C10 C07 C16
+//@   ensures origErr == nil ==> result == nil
+//@   ensures origErr != nil ==> result != nil
+//@   ensures[C16] origErr != nil ==> $cap == lvl - 1 - depth
+//@ func NewAssertionErrorWithWrappedErrf
+//@   props C10 C07 C16
+//@   ensures origErr == nil ==> result == nil
+//@   ensures origErr != nil ==> result != nil
+//@   ensures[C16] origErr != nil ==> $cap == lvl - 1
+//@ func NewAssertionErrorWithWrappedErrDepthf
+//@   props C10 C07 C16
+//@   ensures origErr == nil ==> result == nil
+//@   ensures origErr != nil ==> result != nil
+//@   ensures[C16] origErr != nil ==> $cap == lvl - 1 - depth
